@@ -1112,24 +1112,25 @@ class Agent(dbus.service.Object):
             if (not isinstance(interval_ms, int) or not 0 <= interval_ms < 2 ** 31
                     or not isinstance(node_id, str)):
                 # peer-supplied values which the polling_received signal cannot carry
+                # (the other items of the map are still handled)
                 self.__logger.error('Ignoring invalid Sender Listen %s from %s', repr(interval_ms), repr(node_id))
-                return
-            self.__logger.info('Sender Listen for %d ms from %s', interval_ms, node_id)
+            else:
+                self.__logger.info('Sender Listen for %d ms from %s', interval_ms, node_id)
 
-            data = cbor2.dumps({
-                ExtensionKey.SENDER_NODEID: self._config.node_id,
-            })
-            item = BundleItem(
-                address=str(conv.peer_address),
-                port=conv.peer_port,
-                local_address=str(conv.local_address) if conv.local_address else None,
-                local_port=conv.local_port,
-                file=BytesIO(data),
-            )
-            self._add_tx_item(item, is_transfer=False)
+                data = cbor2.dumps({
+                    ExtensionKey.SENDER_NODEID: self._config.node_id,
+                })
+                item = BundleItem(
+                    address=str(conv.peer_address),
+                    port=conv.peer_port,
+                    local_address=str(conv.local_address) if conv.local_address else None,
+                    local_port=conv.local_port,
+                    file=BytesIO(data),
+                )
+                self._add_tx_item(item, is_transfer=False)
 
-            dtntime = DtnTimeField.datetime_to_dtntime(timestamp)
-            self.polling_received(dtntime, interval_ms, node_id, str(conv.peer_address), conv.peer_port)
+                dtntime = DtnTimeField.datetime_to_dtntime(timestamp)
+                self.polling_received(dtntime, interval_ms, node_id, str(conv.peer_address), conv.peer_port)
 
         if ExtensionKey.TRANSFER in extmap:
             xfer_id, total_len, frag_offset, frag_data = extmap[ExtensionKey.TRANSFER]
